@@ -6,6 +6,7 @@ package main
 import (
 	"bytes"
 	"fmt"
+	"os"
 	"sort"
 	"strings"
 	"verifharness/smtpd"
@@ -103,6 +104,17 @@ func gen(g *vh.Gen) {
 		}
 		g.Emit("smtppar", append(c.Fields(), strings.Join(hs, "+"))...)
 	}
+	// the assembled server on a listener that speaks TLS from the first byte (SMTP_FORCETLS), with one to three
+	// peers that connected first and never say anything: the client of the case must still be served
+	for i := 0; i < g.N(6, 120); i++ {
+		oa := smtpd.Opts{Garbage: 0.1, MaxBody: 120}
+		c, pool := smtpd.GenCfg(g, oa)
+		stream := bytes.ReplaceAll(smtpd.GenDialogue(g, c, pool, oa), []byte("x/y"), []byte("xsy")) // '/' in a mailbox name: K-C14
+		if !bytes.HasSuffix(bytes.ToUpper(bytes.TrimRight(stream, "\r\n")), []byte("QUIT")) {
+			stream = append(stream, []byte("QUIT\r\n")...)
+		}
+		g.Emit("asmtls", append(c.Fields(), vh.H(stream))...)
+	}
 	// one pause at every byte offset of valid dialogues
 	for i := 0; i < g.N(3, 150); i++ {
 		c, pool := smtpd.GenCfg(g, oc)
@@ -123,8 +135,16 @@ func exec(kind string, in []string) []string {
 		return smtpd.Exec(in)
 	case "smtppar":
 		return smtpd.ExecPar(in)
+	case "asmtls":
+		return smtpd.ExecAsmTLS(in)
 	}
 	return []string{"UNKNOWN-KIND"}
 }
 
-func main() { vh.Main(gen, exec) }
+func main() {
+	if len(os.Args) > 1 && os.Args[1] == "asmchild" {
+		smtpd.AsmChild()
+		return
+	}
+	vh.Main(gen, exec)
+}
